@@ -178,3 +178,6 @@ extern "C" void harness_valid() {
   V_ASSERT(m.n_vertices() == (which == FM_EMPTY ? 0u : 4u) && m.n_cells() == (which == FM_EMPTY ? 0u : 1u));
   v_witness("valid file read");
 }
+
+// development probe: one concrete case without the selector
+extern "C" void harness_one() { g_mode = v_param(2); do_case(v_param(3)); }
